@@ -50,11 +50,12 @@ func runNBRandom(w *rt.World, res *hx.Result, kind int) *hx.Violation {
 			g.gap = hx.G(4)
 		}
 	}
-	var clTCP, clAbort, clWindow, clN, clLinger [maxClients]int
+	var clTCP, clAbort, clWindow, clN, clLinger, clRunt [maxClients]int
 	for c := 0; c < maxClients; c++ {
 		clLinger[c] = hx.F(4) // tcp: 0 = keep the connection open (idle) until after Stop; 1 = connect and send nothing, stay connected
 		clTCP[c] = hx.G(3)
 		clAbort[c] = hx.F(6)
+		clRunt[c] = hx.F(48) // tcp: < 8: a frame too short to be a request (length prefix 1..11) is sent before request number (value % 4)
 		clWindow[c] = hx.F(4)
 		clN[c] = 1 + hx.G(maxReqs)
 	}
@@ -154,11 +155,26 @@ func runNBRandom(w *rt.World, res *hx.Result, kind int) *hx.Violation {
 			} else {
 				b = buildRequest(idc, 0, uint16(g.names[2]%2)<<8, qn, "", nil, 0, false)
 			}
+			if g.big == 2 && r < maxReqs && !churnQ && !cl.tcp {
+				// a request of exactly the size of a receive buffer (576 / 1024 bytes), or one byte off: the datagram
+				// that fills the buffer to the last byte is whole, not truncated
+				target := [...]int{576, 1024, 575, 577, 1023, 1025}[g.names[0]%6]
+				if eb := buildExactSize(idc, target, qn[0]); eb != nil {
+					b = eb
+					rt.Probe(PExactSize)
+				}
+			}
 			cl.reqs = append(cl.reqs, &nbReq{id: idc, bytes: b, sig: stripID(b), tcp: cl.tcp, churn: churnQ})
 			cl.gaps = append(cl.gaps, g.gap)
 		}
 		if idc < idKeep {
 			idc = idKeep
+		}
+		cl.runtAt, cl.runtLen = -1, 0
+		if cl.tcp && clRunt[c] < 8 && clAbort[c] != 0 && !cl.silent && !cl.paced && !cl.stall && len(cl.reqs) > 0 {
+			cl.runtAt = clRunt[c] % 4 % len(cl.reqs)
+			cl.runtLen = 1 + (clRunt[c]*5+c)%11
+			rt.Probe(PTCPRunt)
 		}
 		if cl.tcp && clAbort[c] == 0 && !cl.linger && !cl.paced && !cl.stall {
 			total := 0
@@ -592,7 +608,7 @@ func runNBRandom(w *rt.World, res *hx.Result, kind int) *hx.Violation {
 			return &hx.Violation{Class: "no_response", Key: sysName + "/long-lived-connection",
 				Msg: fmt.Sprintf("tcp client %d sent one request every 12 s on one connection and got only %d of %d answers: the server dropped a live connection", cl.idx, len(cl.got), len(cl.reqs))}
 		}
-		if !lossy && cl.abortAt < 0 && cl.sentAll {
+		if !lossy && cl.abortAt < 0 && cl.sentAll && cl.runtAt < 0 {
 			for _, r := range cl.reqs {
 				exp := expUDP[r.sig]
 				if cl.tcp {
@@ -711,7 +727,14 @@ func tcpClient(cl *nbClient, window int) {
 	}
 	simnet.SetWindow(simnet.Peer(c), window) // bytes the server may have in flight towards this (slow) client
 	var stream []byte
-	for _, r := range cl.reqs {
+	for i, r := range cl.reqs {
+		if i == cl.runtAt {
+			// a frame that cannot be a request: the server may drop the connection or skip exactly that frame
+			stream = append(stream, 0, byte(cl.runtLen))
+			for j := 0; j < cl.runtLen; j++ {
+				stream = append(stream, byte(0x0C+j))
+			}
+		}
 		var l [2]byte
 		binary.BigEndian.PutUint16(l[:], uint16(len(r.bytes)))
 		stream = append(stream, l[:]...)
